@@ -1,5 +1,5 @@
 //! C10: bus decode. After every write of a generated history the whole 64 KiB read image is digested per region.
-//! c10 type=T rom=R ram=M hist=a:v;... | d=<12 window digests> io=<hex of 0xFF00..0xFF7F> fd=<digest of fetch view> rd=<digest of reads at the same addresses>
+//! c10 type=T rom=R ram=M hist=a:v;... | d=<12 window digests> io=<hex of 0xFF00..0xFF7F> fd=<digest of fetch view> rd=<digest of reads at the same addresses> fe=<digest of the fetch view over the echo aliases>
 use crate::mem::{get_executable_memory_slice, memory_read_byte, memory_write_byte, MemoryAreas};
 use crate::roms::*;
 use crate::util::{hex, Opts, Rng};
@@ -42,6 +42,21 @@ fn fetch_digests(p: *mut MemoryAreas) -> (u64, u64) {
   (hf, hr)
 }
 
+/// fetch view over the echo aliases 0xE000-0xFE9F (they execute from work RAM although data reads return 0):
+/// every 5th address + edges; ties the model's `fetchByte` there
+fn fetch_echo_digest(p: *mut MemoryAreas) -> u64 {
+  let mut h = FNV0;
+  let mut addrs: Vec<usize> = Vec::new();
+  let mut a = 0xe000usize;
+  while a < 0xfea0 { addrs.push(a); a += 5; }
+  for e in [0xefffusize, 0xf000, 0xfdff, 0xfe00, 0xfe9f] { addrs.push(e); }
+  for a in addrs {
+    let s = get_executable_memory_slice(a, p);
+    h = fnv(h, if s.len() > 0 { s[0] } else { 0 });
+  }
+  h
+}
+
 pub fn gen_write(rng: &mut Rng) -> (u16, u8) {
   let addr = match rng.below(10) {
     0 | 1 | 2 => *rng.pick(&BOUNDARY),
@@ -80,9 +95,10 @@ pub fn run(_sub: &str, opts: &Opts, w: &mut dyn Write) {
       for (a, v) in hist.iter() { memory_write_byte(p, *a, *v); }
       let (ds, io) = image_digests(p);
       let (fd, rd) = fetch_digests(p);
+      let fe = fetch_echo_digest(p);
       let hs: Vec<String> = hist.iter().map(|(a, v)| format!("{}:{}", a, v)).collect();
       let dss: Vec<String> = ds.iter().map(|d| d.to_string()).collect();
-      writeln!(w, "c10 type={} rom={} ram={} banks={} ramb={} hist={} | d={} io={} fd={} rd={}", t, r, m, rom_bank_count(r), header(t, r, m).get_ram_size_bytes(), hs.join(";"), dss.join(","), hex(&io), fd, rd).unwrap();
+      writeln!(w, "c10 type={} rom={} ram={} banks={} ramb={} hist={} | d={} io={} fd={} rd={} fe={}", t, r, m, rom_bank_count(r), header(t, r, m).get_ram_size_bytes(), hs.join(";"), dss.join(","), hex(&io), fd, rd, fe).unwrap();
     }
   }
 }
